@@ -42,6 +42,12 @@ PURE_BUILTINS = {
     'isinstance', 'issubclass', 'hasattr', 'id', 'hash', 'callable', 'any',
     'all', 'sum', 'reversed', 'iter', 'map', 'filter', 'divmod', 'round',
     'object', 'memoryview', 'slice', 'vars', 'dir'}
+CONST_STR_METHODS = {
+    'upper', 'lower', 'strip', 'lstrip', 'rstrip', 'title', 'capitalize',
+    'encode', 'replace', 'startswith', 'endswith', 'split', 'rsplit',
+    'partition', 'rpartition', 'zfill', 'ljust', 'rjust', 'swapcase',
+    'isdigit', 'isalpha', 'find', 'index', 'count', 'removeprefix',
+    'removesuffix', 'casefold'}
 BUILTIN_EXC = {
     'BaseException': None, 'Exception': 'BaseException',
     'ArithmeticError': 'Exception', 'LookupError': 'Exception',
@@ -2171,6 +2177,18 @@ class PathSum(object):
                         parts.append(recv)
                     parts.append(x)
                 return [(st, self.concat(parts) if parts else const(''))]
+            if name in CONST_STR_METHODS and all(
+                    is_const(a) for a in args) and not kwargs:
+                try:
+                    r = getattr(recv[1], name)(*[a[1] for a in args])
+                except Exception:
+                    r = None
+                if isinstance(r, (str, bytes, bool, int)):
+                    return [(st, const(r))]
+                if isinstance(r, (list, tuple)) and all(
+                        isinstance(x, str) for x in r):
+                    return [(st, (type(r).__name__, tuple(
+                        const(x) for x in r)))]
             if name in ('encode', 'lower', 'upper', 'strip') and not args:
                 return [(st, op('str.' + name, recv))]
         if recv[0] == 'dict' and name == 'get' and args:
@@ -2210,6 +2228,12 @@ class PathSum(object):
         if nm == 'getattr' and len(args) >= 2 and is_const(args[1]) and \
                 isinstance(args[1][1], str):
             if len(args) == 2:
+                if isinstance(node, ast.Call) and node.args and not \
+                        isinstance(node.args[0], ast.Starred):
+                    # getattr(x, 'name') is x.name
+                    node = ast.copy_location(ast.Attribute(
+                        value=node.args[0], attr=args[1][1],
+                        ctx=ast.Load()), node)
                 return self.getattr(args[0], args[1][1], st, fi, node)
             key = (args[0], args[1][1])
             if key in st.heap:
